@@ -15,7 +15,7 @@
    Fixed-gain, OpenROADM, polynomial (advanced_model) and dual-stage NF are formula definitions in the model, tied to
    gnpy by the correspondence run only; no theorem is claimed about them. *)
 From Coq Require Import Reals QArith List Psatz.
-From Verif Require Import Prelude Num Model.Amp Proofs.Amp.
+From Verif Require Import Prelude Num Model.Amp Proofs.Amp Gen.AmpGen Proofs.AmpGen.
 Import ListNotations.
 
 (* ---- saturation clamp (exact, over Q) *)
@@ -219,6 +219,84 @@ Theorem C04_nf_dual_antitone : forall (pre : @stage NumR) (nf1 nf2 dp bmin bmax 
     b <= a.
 Proof. exact nf_dual_antitone. Qed.
 Print Assumptions C04_nf_dual_antitone.
+
+(* ---- second tie (translator): the fragments below are re-translated from /repo's source on every run
+        (harness/pygen_c04.py -> Gen/AmpGen.v) and proved equal to the hand-written model, for every number structure N
+        (NumR of the theorems above, NumF of the correspondence run) ---- *)
+(* Edfa._nf: padding, gain decrease, every NF model branch (variable_gain two-coil formula, fixed_gain, the OpenROADM
+   masks, the noiseless booster, the advanced_model polynomial argument) *)
+Theorem C04_source_nf : forall (N : Num) (s : @stage N) g pin nch sw, g_nf s g pin nch sw = nf_stage s g pin nch sw.
+Proof. exact @gen_nf. Qed.
+Print Assumptions C04_source_nf.
+(* Edfa._calc_nf: gains handed to the stages of a dual stage and the cascade formula; the ripple added per channel *)
+Theorem C04_source_calc_nf : forall (N : Num) (k : @amp_kind N) eff pin nch sw,
+  g_calc_nf_avg k eff pin nch sw = calc_nf_avg k eff pin nch sw.
+Proof. exact @gen_calc_nf_avg. Qed.
+Print Assumptions C04_source_calc_nf.
+Theorem C04_source_edfa_nf : forall (N : Num) (a : @amp N) chs,
+  edfa_nf a chs =
+  map (fun r => g_nf_channel r (g_calc_nf_avg (a_kind a) (edfa_eff a chs) (edfa_pin_db chs) (nlen (map k_pch chs)) (edfa_slot_width chs)))
+      (grid_interp a (a_nf_ripple a) chs).
+Proof. exact @gen_edfa_nf. Qed.
+Print Assumptions C04_source_edfa_nf.
+(* Edfa.interpol_params: total input power and the saturation clamp *)
+Theorem C04_source_clamp : forall (N : Num) (a : @amp N) chs,
+  edfa_eff a chs = g_eff_gain (a_gain_target a) (a_p_max a) (g_pin_db (nsum (map k_pch chs))) /\
+  edfa_pin_db chs = g_pin_db (nsum (map k_pch chs)).
+Proof. exact @gen_clamp. Qed.
+Print Assumptions C04_source_clamp.
+Theorem C04_source_slot_width : forall (c0 : @ch NumR) (t : list (@ch NumR)),
+  edfa_slot_width (c0 :: t) =
+  g_slot_width (@nlen NumR (map k_pch (c0 :: t))) (k_f c0) (match t with c1 :: _ => k_f c1 | [] => k_f c0 end) (k_sw c0).
+Proof. exact gen_slot_width. Qed.
+Print Assumptions C04_source_slot_width.
+(* Edfa.noise_profile and the gain applied by Edfa.propagate *)
+Theorem C04_source_ase : forall (N : Num) (c : @ch N) nf, g_ase_in c nf = ase_in c nf.
+Proof. exact @gen_ase_in. Qed.
+Print Assumptions C04_source_ase.
+Theorem C04_source_channel : forall (N : Num) ov (c : @ch N) nf g,
+  amp_ch ov c nf g = scale_ch (db2lin (g_channel_gain_db g ov)) (add_ase_ch (g_ase_in c nf) c).
+Proof. exact @gen_amp_ch. Qed.
+Print Assumptions C04_source_channel.
+(* info.is_in_band on (frequency, slot_width) as handed over by demuxed_spectral_information *)
+Theorem C04_source_in_band : forall (N : Num) fmin fmax (c : @ch N), g_in_band fmin fmax c = in_band fmin fmax c.
+Proof. exact @gen_in_band. Qed.
+Print Assumptions C04_source_in_band.
+(* Edfa._gain_profile: first estimate, normalisation, flatness test, probes and the secant step *)
+Theorem C04_source_gain_profile : forall (N : Num) (a : @amp N) freqs pin d0 d1 dt ripple pin_db eff,
+  let dgt := d0 :: d1 :: dt in
+  let g1st := g1st_of a freqs dgt ripple in
+  let base := normalise g1st eff in
+  let gavg := fun x => g_gavg (g_pout_db pin (tilt_by base dgt x)) pin_db in
+  let dgts2 := g_dgts2 eff (g_pout_db pin base) pin_db in
+  let dx := deltax_of g1st in
+  gain_profile a freqs pin dgt ripple pin_db eff =
+  if g_flat dx then base
+  else tilt_by base dgt (g_secant eff dgts2 (gavg dgts2) (g_xlow dgts2 dx) (gavg (g_xlow dgts2 dx))
+                                  (g_xhigh dgts2 dx) (gavg (g_xhigh dgts2 dx))).
+Proof. exact @gen_gain_profile. Qed.
+Print Assumptions C04_source_gain_profile.
+Theorem C04_source_gain_profile_pieces : forall (N : Num) (a : @amp N) freqs dgt ripple (g1st : list (NT N)) eff x,
+  g1st_of a freqs dgt ripple =
+    map2 (g_g1st_elem (a_gain_flatmax a) (g_dgts1 (g_targ_slope (a_tilt_target a) (a_f_min a) (a_f_max a)) (ols_slope freqs dgt))) ripple dgt /\
+  normalise g1st eff = map (fun g => nsub g (g_voa g1st eff)) g1st /\
+  tilt_by (normalise g1st eff) dgt x = map2 (g_tilted_elem (g_voa g1st eff) x) g1st dgt.
+Proof. exact @gen_profile_pieces. Qed.
+Print Assumptions C04_source_gain_profile_pieces.
+Theorem C04_source_secant : forall (N : Num) (eff xc gc xl gl xh gh : NT N),
+  g_secant eff xc gc xl gl xh gh = secant_step eff xc gc xl gl xh gh.
+Proof. exact @gen_secant. Qed.
+Print Assumptions C04_source_secant.
+(* json_io._update_dual_stage: p_max of the output stage, added flat gains, the gain_min test *)
+Theorem C04_source_dual_stage : forall (N : Num) (a b : NT N),
+  g_dual_p_max a b = dual_p_max a b /\ g_dual_gain_flatmax a b = dual_gain_flatmax a b /\ g_dual_rejected a b = dual_rejected a b.
+Proof. exact @gen_dual. Qed.
+Print Assumptions C04_source_dual_stage.
+(* science_utils.estimate_nf_model, whole function: same triple or an error in both *)
+Theorem C04_source_estimate_nf_model : forall (N : Num) (gmin gmax nfmin nfmax : NT N),
+  res_agree (g_estimate_nf_model gmin gmax nfmin nfmax) (estimate_nf_model gmin gmax nfmin nfmax).
+Proof. exact @gen_estimate. Qed.
+Print Assumptions C04_source_estimate_nf_model.
 
 (* ---- non-vacuity *)
 (* the clamp bites on a concrete saturated case and is idle on an unsaturated one *)
